@@ -6,7 +6,7 @@ open RgVerif RgVerif.Exit RgVerif.ExitSpec
 Requests
   c15.run   (cfg MODE par quiet stats messages implicit matchesPossible setupOk) PARSE (items ITEM…)
   c15.spec  (cfg …) (items ITEM…)        -- the contract applied to the whole list `all`
-  c15.guard (cfg …) (items ITEM…)        -- pipeHit / pipeGuard of C15_pipe
+  c15.guard (cfg …) (items ITEM…)        -- pipeHit of C15_pipe; kindIntact: --pre leaves the error kinds alone
 MODE = search | files; PARSE = ok | err | special
 ITEM = w (walker error) | s (skipped entry) | (f ID SR WR) | (pf ID SR WR) (file searched through --pre),
        SR = m | n | e | p (raw result of the search), WR = o | p | e
@@ -86,7 +86,7 @@ def handle (cmd : String) (args : List Sx) : String :=
     match parseCfg cfg, parseItems items with
     | some c, some raw =>
       let ran := raw.map (·.2)
-      s!"pipeHit {b (pipeHit c ran)} pipeGuard {b (pipeGuard c ran)} kindIntact {b (raw.map seen == ran)}"
+      s!"pipeHit {b (pipeHit c ran)} kindIntact {b (raw.map seen == ran)}"
     | _, _ => "bad-op"
   | _, _ => "bad-op"
 
